@@ -1,5 +1,5 @@
 """C07 - empty collections propagate through operators and functions."""
-from lib import driver as D
+from lib import driver as D, machine as M
 
 MUTANTS = ["firstOfEmptyFabricates", "cmpEmptyIsFalse"]
 
@@ -30,6 +30,8 @@ def run(ctx):
     by_id = {o["id"]: o for o in obs}
     keys = [(o["cs"]["kind"], o["cs"]["op"], o["cs"]["name"], o["cs"]["n"], o["cs"]["side"], o["cs"]["pos"], o["cs"]["rcv"]) for o in obs]
     ctx.extra["functions_in_table"] = len(table)
+    # programs of the whole abstract machine whose last step is one of this property's operations (lib/machine.py)
+    verdicts = M.extend(ctx, verdicts, by_id)
     return D.finish(ctx, verdicts, by_id, evaluations=len(obs),
                     rule="exhaustive: every binary/unary operator x operand position x {literal {}, absent path, empty variable}; every name of the "
                          "implementation's base and experimental tables x every arity Compile accepts (0..4) with the input empty, and every "
